@@ -3,7 +3,7 @@
    the real backends). *)
 From Coq Require Import List Bool Arith String.
 Import ListNotations.
-From DV Require Import Gate.Model Dispatch.Model Dispatch.Proofs Docs.Model Docs.Proofs.
+From DV Require Import Gate.Model Dispatch.Model Dispatch.Proofs gen.Tables Docs.Model Docs.Proofs.
 
 (* whatever the gate accepts as an output / non-callback input / return type is at most 3 constructors deep, i.e. it is
    literally one of the enumerated witnesses (enumeration depth 3 in the thorough tier, depth 2 + pointer options in quick) *)
@@ -35,9 +35,8 @@ Theorem C15_docs_url_unrepaired_refuted : exists g l, l_path l <> [] /\ gen_url_
 Proof. exact unrepaired_refuted. Qed.
 Print Assumptions C15_docs_url_unrepaired_refuted.
 
-(* ... and the repair leaves every link whose path is long enough for its kind exactly as it was *)
-Theorem C15_docs_repair_is_conservative : forall g l,
-  need (l_typ l) <= List.length (l_path l) -> gen_url_unrepaired g l = gen_url g l.
+(* ... and the repair leaves every link for which the old generator produced a URL exactly as it was *)
+Theorem C15_docs_repair_is_conservative : forall g l u, gen_url_unrepaired g l = Some u -> gen_url g l = Some u.
 Proof. exact repair_is_conservative. Qed.
 Print Assumptions C15_docs_repair_is_conservative.
 
